@@ -293,7 +293,8 @@ def explore(ctx, pid, want, n_quick=8, n_thorough=60, cuts_quick=40, big=False, 
                                    opts=opts, gen2=proto_gen2, rng=rng, script1=script)
             for (cls, desc, text) in pr.get("findings", []):
                 from . import multigen as MG
-                if MG.SCENARIOS.get(cls, (None,))[0] != pid:
+                owners = MG.SCENARIOS.get(cls, (None,))[0]
+                if pid not in ((owners,) if isinstance(owners, str) or owners is None else owners):
                     continue      # the sibling property reports this class
                 if cls in kf:
                     if cls not in known_paths:
